@@ -12,6 +12,8 @@
 (*   got = Allowed(ver, st, ev)                        (no history)        *)
 (*   got = Allowed(ver, RestrictTo(st, Needed(ev)), ev) (only needed)      *)
 (*   got = fresh                                       (reuse is invisible)*)
+(*   got = sub    (sub: a fresh Allowed() over exactly the (type, state    *)
+(*                 key) pairs the library's StateNeededForAuth names)      *)
 (* The history variables seen / held make the statement about histories    *)
 (* explicit: Functional says that two lines of the trace with the same     *)
 (* (version, needed state, event) carry the same verdict whatever happened *)
@@ -37,6 +39,7 @@ Explains(r) ==
     /\ Allowed(r.ver, s, r.ev) = r.got
     /\ Allowed(r.ver, RestrictTo(s, Needed(r.ev)), r.ev) = r.got
     /\ r.fresh = r.got
+    /\ r.sub = r.got          \* a fresh Allowed over exactly the state StateNeededForAuth names
 
 \* the first earlier line with the same projection, 0 if none
 Earlier(r) == LET p == Proj(r) IN
